@@ -1551,6 +1551,24 @@ def check_C13(work, tier, seed):
     sc0 = gen_c13(seed, "quick")
     sc0.lines = [ln for ln in sc0.lines if "cap=" not in ln or "cap=2" in ln]
     lines0 = conform(work, b0, "C13", seed, sc0.text(), out, tag="-nohook")
+    # builds in which a back end is NOT compiled in although the CPU supports it: the selection must
+    # stop at what is compiled in (and the objects must work)
+    for name, v128, v256 in (("no256", 1, 0), ("noSIMD", 0, 0)):
+        bx = build(work, name=name, defs=["SKINNY_VERIF_VEC128_MATH=%d" % v128, "SKINNY_VERIF_VEC256_MATH=%d" % v256],
+                   built128=v128, built256=v256)
+        scx = Sc(seed + 3)
+        for kind in ("s128", "s64", "mantis"):
+            for cap in (2, 1, 0):
+                scx.reset("c13-%s-%s-cap%d" % (name, kind, cap))
+                scx.ctr_init(kind, 0, cap=cap, prefill=0xA5)
+                scx.par_init(kind, 0, cap=cap, prefill=0xFF)
+                scx.ctr_set_key(kind, 0, valid_key(scx, kind), rounds=6)
+                scx.ctr_encrypt(kind, 0, scx.rb(9 * BS[kind] + 3))
+                scx.par_set_key(kind, 0, valid_key(scx, kind), rounds=6, mode=1)
+                scx.par_crypt(kind, 0, scx.rb(17 * BS[kind]), tweak=scx.rb(17 * 8) if kind == "mantis" else None)
+                scx.ctr_cleanup(kind, 0)
+                scx.par_cleanup(kind, 0)
+        lines0 += conform(work, bx, "C13", seed, scx.text(), out, tag="-" + name)
     for ln in lines + lines0:
         if '_init"' in ln:
             ev = json.loads(ln)
